@@ -1,4 +1,4 @@
 SPECIFICATION Spec
-CONSTANTS MaxLen = 5 CopyOnCompute = "each"
+CONSTANTS MaxLen = 5 Classes <- AllClasses CopyOnCompute = "each"
 INVARIANT Emitted
 CHECK_DEADLOCK FALSE
